@@ -177,3 +177,5 @@ Example c10_buffered_queued_witness :
     [SEmit [1;2;3]; SDown; SEmit [4;5;6]; SEmit [7;8;9]; SEmit [1;1;1;1;1;1;1;1;1]; SFlush; SUp; SFlush]%N)) =
   [SK 3; SNone; SK 3; SE; SE; SE; SNone; SK 0]%N.
 Proof. vm_compute. split; reflexivity. Qed.
+
+(* Note after the second read-only review of these pins (selftest/audit/REVIEW-2-2026-10-02.md): in the c10_buffered_queued_* pins 'capacity' is the BUFFER's capacity; the queuing wrapper of Sock.sc_buf is modelled with room for every emit (the bounded queue is the subject of c10_result_room etc. above), which is why every emit is answered SK (length m) there by definition of sc_buf - the content is the flush / outage clauses and that the wire is unaffected. *)
